@@ -655,3 +655,38 @@ wait:
 	}
 	fmt.Printf("VK-REPLAY-PASS property=%s leg=%s\n", rf.Property, rf.Leg)
 }
+
+// ---------------------------------------------------------------------------
+// Native fuzz targets (thorough tier).  The fuzz function runs in worker
+// processes, so it does not use H; a violation is written as a replay file
+// (smallest case per process wins) and reported with a VK-FUZZ-VIOLATION line.
+
+var (
+	fuzzMu   sync.Mutex
+	fuzzBest = map[string]int{}
+)
+
+// FuzzCheck runs run on c inside a fuzz target and fails t on a violation.
+func FuzzCheck[C any](t *testing.T, prop, leg string, c C, run RunFunc[C]) {
+	o := &Obs{}
+	msg := Guard(func() string { return run(c, o) })
+	if msg == "" {
+		return
+	}
+	js, _ := json.Marshal(c)
+	dir := os.Getenv("VK_REPLAYDIR")
+	if dir == "" {
+		dir = os.TempDir()
+	}
+	path := filepath.Join(dir, fmt.Sprintf("%s-%s-fuzz-%d.json", prop, leg, os.Getpid()))
+	fuzzMu.Lock()
+	if best, ok := fuzzBest[path]; !ok || len(js) < best {
+		fuzzBest[path] = len(js)
+		rf := ReplayFile{Property: prop, Leg: leg, Tier: "thorough", Message: msg, Case: js}
+		b, _ := json.MarshalIndent(rf, "", " ")
+		os.MkdirAll(dir, 0o755)
+		os.WriteFile(path, append(b, '\n'), 0o644)
+	}
+	fuzzMu.Unlock()
+	t.Fatalf("VK-FUZZ-VIOLATION property=%s leg=%s replay=%s\n%s", prop, leg, path, msg)
+}
